@@ -21,7 +21,8 @@ LEAN_MODEL_TARGETS = ["drv_c16"]
 LEAN_PROOF_TARGETS = ["PyroProps.C16"]
 AUDIT_FILES = ["PyroModel/Registry.lean", "PyroModel/Gen/C16.lean", "PyroProofs/Registry.lean", "PyroProps/C16.lean"]
 THEOREMS = [
-    "Pyro.C16.C16_gen_fixes", "Pyro.C16.C16_gen_shape",
+    "Pyro.C16.C16_gen_fixes", "Pyro.C16.C16_gen_shape", "Pyro.C16.C16_gen_order",
+    "Pyro.C16.C16_failed_register_unchanged",
     "Pyro.C16.C16_refines_partial", "Pyro.C16.C16_call_exact", "Pyro.C16.C16_registered_exact",
     "Pyro.C16.C16_double_refused", "Pyro.C16.C16_daemon_fixed", "Pyro.C16.C16_attrs_of_registered",
     "Pyro.C16.C16_return_partial", "Pyro.C16.C16_return_unregistered", "Pyro.C16.C16_no_dead_weak",
@@ -31,11 +32,14 @@ THEOREMS = [
     "Pyro.Registry.invW_step", "Pyro.Registry.back_step", "Pyro.Registry.abs_step", "Pyro.Registry.reach",
 ]
 SUITES = ["history"]
-RULE = ("histories (<= 25 steps) over a pool of 6 objects of 3 exposed classes and the 3 classes themselves; ids: "
-        "'Pyro.Daemon', 4 explicit strings, None / '' (generated) / a non-string, and ids generated earlier in the same "
-        "history; force and weak flags; garbage-collection points; serpent/json/msgpack for returned objects; all "
-        "choices from VERIF_SEED. A history is non-trivial when the real daemon accepted >= 2 registrations and >= 1 "
-        "call or returned object reached a pool object / arrived as proxy; distinct = distinct step list")
+RULE = ("histories (<= 25 steps) over a pool of 13 objects — 6 of 3 ordinary exposed classes (one class falsy, one whose "
+        "instances all compare equal), 2 of a __slots__ class that cannot carry the pyro attributes (register must fail "
+        "cleanly), 5 whose classes derive from set / UUID / Decimal / datetime / array — and the 3 ordinary classes "
+        "themselves; ids: 'Pyro.Daemon', 4 explicit strings, None / '' (generated) / a non-string, and ids generated earlier "
+        "in the same history; force and weak flags; the daemon's own DaemonObject as argument; garbage-collection points; "
+        "serpent/json/msgpack for returned objects, returned directly or nested in a container; all choices from VERIF_SEED. "
+        "A history is non-trivial when the real daemon accepted >= 2 registrations and >= 1 call or returned object reached "
+        "a pool object / arrived as proxy; distinct = distinct step list")
 ASSUMPTIONS = [
     "uuid4 never repeats and never equals an explicit id (generated ids are compared by order of appearance)",
     "CPython frees an object, and runs its weakref finalizers, as soon as the last strong reference is dropped "
@@ -47,7 +51,16 @@ ASSUMPTIONS = [
 TRUSTED = ["the in-memory connection and the pool classes of harness/props/c16.py",
            "the AST features by which the extractor decides the five Cfg switches (a wrong switch shows up as a correspondence mismatch)"]
 
-NOBJ, NCLS = 6, 3
+# pool (mirrors `classOf` / `canSet` / `viaClassToDict` of PyroModel/Registry.lean):
+#   objects 0-5: instances of the ordinary classes 0-2 (k mod 3); only these classes are ever registered as classes
+#   objects 6-7: instances of class 3, which has __slots__ without _pyroId/_pyroDaemon (setting them raises)
+#   objects 8-12: instances of classes 4-8 deriving from set, uuid.UUID, decimal.Decimal, datetime.datetime, array.array
+NOBJ, NCLS, REGCLS = 13, 9, 3
+
+
+def class_of(k):
+    return k % 3 if k < 6 else 3 if k < 8 else k - 4
+
 NAMES = ["alpha", "b.b", "obj_c", "d-d"]
 SERS = {"s": "serpent", "j": "json", "m": "msgpack"}
 CORPUS = os.path.join(common.VERIF, "corpus", "C16")
@@ -151,7 +164,44 @@ def _facts():
         stmts = [n for n in fsrc.body if not isinstance(n, ast.Pass)]
         if stmts:
             with_hook.append(name)
-    class_to_dict = method([n for n in ast.parse(open(serializers.__file__).read()).body
+    stree = ast.parse(open(serializers.__file__).read())
+    # order of the statements of Daemon.register
+    order = []
+    for st in reg.body:
+        src = ast.unparse(st)
+        if isinstance(st, ast.Expr) and isinstance(st.value, ast.Constant):
+            continue
+        if isinstance(st, ast.If) and src.startswith("if objectId:"):
+            k = "idcheck"
+        elif isinstance(st, ast.If) and src.startswith("if inspect.isclass(obj_or_class):"):
+            k = "classcheck"
+        elif isinstance(st, ast.If) and src.startswith("if not force:"):
+            k = "forcecheck"
+        elif isinstance(st, ast.Assign) and src.startswith(("obj_or_class._pyroId =", "obj_or_class._pyroDaemon =")):
+            k = "attrs"
+        elif isinstance(st, ast.For) and "register_type_replacement" in src:
+            k = "hooks"
+        elif isinstance(st, ast.Assign) and src.startswith("self.objectsById["):
+            k = "insert"
+        elif isinstance(st, ast.If) and src.startswith("if weak:") and "weakref.finalize" in src:
+            k = "finalize"
+        elif isinstance(st, ast.Return) and src == "return self.uriFor(objectId)":
+            k = "return"
+        else:
+            k = "unknown:" + src[:40]
+        if not order or order[-1] != k:
+            order.append(k)
+    # the type replacement is consulted before any builtin conversion in default()
+    hook_first = []
+    for cname in ("JsonSerializer", "MsgpackSerializer"):
+        cl = [n for n in stree.body if isinstance(n, ast.ClassDef) and n.name == cname]
+        if not cl:
+            continue
+        body = [ast.unparse(n) for n in method(cl[0], "default").body
+                if not (isinstance(n, ast.Expr) and isinstance(n.value, ast.Constant))]
+        hook_first.append((cname, body[:2] == ["replacer = self.__type_replacements.get(type(obj), None)",
+                                               "if replacer:\n    obj = replacer(obj)"]))
+    class_to_dict = method([n for n in stree.body
                             if isinstance(n, ast.ClassDef) and n.name == "SerializerBase"][0], "class_to_dict")
     clears = any(isinstance(n, ast.If) and ast.unparse(n.test) == "hasattr(obj, '_pyroDaemon')"
                  and ast.unparse(n.body[0]) == "obj._pyroDaemon = None" for n in ast.walk(class_to_dict))
@@ -164,6 +214,8 @@ def _facts():
         "initDirect": init_direct,
         "hookSerializers": with_hook,
         "classToDictClearsDaemon": clears,
+        "registerOrder": order,
+        "defaultHookFirst": hook_first,
     }
 
 
@@ -197,6 +249,10 @@ def initDirect : Bool := {b(f["initDirect"])}
 def hookSerializers : List String := {json.dumps(f["hookSerializers"])}
 /-- `SerializerBase.class_to_dict` sets `obj._pyroDaemon = None` when the attribute exists -/
 def classToDictClearsDaemon : Bool := {b(f["classToDictClearsDaemon"])}
+/-- the statements of `Daemon.register`, in source order (consecutive statements of one kind merged) -/
+def registerOrder : List String := {json.dumps(f["registerOrder"])}
+/-- per serializer class: `default()` starts with the type-replacement lookup -/
+def defaultHookFirst : List (String × Bool) := [{", ".join('(%s, %s)' % (json.dumps(n), b(v)) for n, v in f["defaultHookFirst"])}]
 end Pyro.Gen.C16
 """
 
@@ -276,13 +332,39 @@ class Real:
         def ping(self):
             log.append(self.tag)
 
-        members = {"__module__": self.MODULE, "__init__": __init__, "ping": ping}
-        if c == 1:
-            # instances of this pool class are FALSY (an empty container-like object): a registered object is
-            # reachable whatever its truth value
-            members["__bool__"] = lambda self: False
-        cls = type("PoolC%d" % c, (object,), members)
-        return self.server.expose(cls)
+        members = {"__module__": self.MODULE, "ping": self.server.expose(ping)}
+        if c < 3:
+            members["__init__"] = __init__
+            if c == 1:
+                # instances of this pool class are FALSY (an empty container-like object): a registered object is
+                # reachable whatever its truth value
+                members["__bool__"] = lambda self: False
+            if c == 2:
+                # all instances of this pool class compare EQUAL (and hash alike): the registry goes by identity
+                members["__eq__"] = lambda self, other: type(other) is type(self)
+                members["__hash__"] = lambda self: 7
+            return self.server.expose(type("PoolC%d" % c, (object,), members))
+        if c == 3:
+            # no room for the pyro attributes: register() must fail, and fail without side effects
+            members["__slots__"] = ("tag", "__weakref__")
+            # by-value form without the __weakref__ slot (which holds the harness's weak reference)
+            members["__getstate__"] = lambda self: {"__class__": "%s.PoolC3" % Real.MODULE, "tag": self.tag}
+            return type("PoolC3", (object,), members)
+        import array, datetime, decimal, uuid
+        base = {4: set, 5: uuid.UUID, 6: decimal.Decimal, 7: datetime.datetime, 8: array.array}[c]
+        if c == 5:
+            members["__setattr__"] = object.__setattr__      # uuid.UUID forbids attribute assignment
+        return type("PoolC%d" % c, (base,), members)
+
+    def _make_object(self, k):
+        c = class_of(k)
+        cls = self.classes[c]
+        if c < 3:
+            return cls(k)
+        o = {3: lambda: cls(), 4: lambda: cls(["x", "y"]), 5: lambda: cls(int=k), 6: lambda: cls("1.5"),
+             7: lambda: cls(2020, 1, 2, 3, 4, 5), 8: lambda: cls("i", [1, 2, 3])}[c]()
+        o.tag = "o%d" % k
+        return o
 
     def close(self):
         self.end_history()
@@ -308,7 +390,7 @@ class Real:
                     delattr(cls, a)
         self.daemon = self.server.Daemon(host="127.0.0.1", port=0)
         self.dobj = self.daemon.objectsById[self.core.DAEMON_NAME]
-        self.pool = [self.classes[k % NCLS](k) for k in range(NOBJ)]
+        self.pool = [self._make_object(k) for k in range(NOBJ)]
         self.wrefs = [weakref.ref(o) for o in self.pool]
         self.conn = _Conn(self.errors)
         self.gens = []          # generated ids in order of appearance
@@ -380,6 +462,8 @@ class Real:
             return None, False
         if tok == "X":
             return [1, 2, 3], False
+        if tok == "B":
+            return self.dobj, False       # the daemon's own DaemonObject
         if tok[0] in "oc":
             return self.ent(tok)
         return self.id_of(tok), False
@@ -418,20 +502,26 @@ class Real:
         t = self.log[0]
         return "inst:c%s" % t[1:] if t[0] == "i" else "reached:" + t
 
-    def do_return(self, k, ser):
+    def do_return(self, k, ser, nested=False):
         obj = self.pool[k]
         try:
-            data = ser.dumps(obj)
+            data = ser.dumps({"x": [obj, 1]} if nested else obj)
         except Exception as x:
             return self.exc_tok(x)
         finally:
             del obj
         val = ser.loads(data)
+        if nested:
+            if not (isinstance(val, dict) and isinstance(val.get("x"), (list, tuple)) and len(val["x"]) == 2):
+                return "?value:%r" % (val,)
+            val = val["x"][0]
         if isinstance(val, self.client.Proxy):
             uri = val._pyroUri
             if uri.location != self.daemon.locationStr:
                 return "?proxy-elsewhere"
             return "proxy:%s>%s" % (self.tok_of(uri.object), self.do_call(uri.object, ser))
+        if k >= 8:
+            return "byvalue"        # whatever data the serializer makes of a set / UUID / Decimal / datetime / array subclass
         if isinstance(val, tuple) and len(val) == 3 and val[0] == "byvalue" and val[2] == "o%d" % k:
             return "byvalue"
         return "?value:%r" % (val,)
@@ -489,7 +579,7 @@ class Real:
                 k = int(op[1])
                 if self.pool[k] is None:
                     return "dead"
-                return self.do_return(k, self.sers.get(op[2]) or self.sers["j"])
+                return self.do_return(k, self.sers.get(op[2].lower()) or self.sers["j"], nested=op[2].isupper())
             if kind == "L":
                 return "ids:" + ",".join(sorted(self.tok_of(i) for i in self.dobj.registered()))
         except Exception as x:
@@ -510,7 +600,7 @@ class Real:
         attrs = []
         for k in range(NOBJ):
             o = self.pool[k]
-            attrs.append("o%d:dead" % k if o is None else "o%d:%s" % (k, self._attrs(vars(o))))
+            attrs.append("o%d:dead" % k if o is None else "o%d:%s" % (k, self._attrs(getattr(o, "__dict__", {}))))
         for c, cl in enumerate(self.classes):
             attrs.append("c%d:%s" % (c, self._attrs(cl.__dict__)))
         return objs + " | " + " ".join(attrs)
@@ -531,7 +621,7 @@ def describe(op):
         return {"D": "'Pyro.Daemon'"}.get(t) or (repr(NAMES[int(t[1:])]) if t[0] == "n" else "<generated id #%s>" % t[1:])
 
     def target(t):
-        return {"N": "None", "X": "[1, 2, 3]"}.get(t) or (t if t[0] in "oc" else ident(t))
+        return {"N": "None", "X": "[1, 2, 3]", "B": "<the daemon's DaemonObject>"}.get(t) or (t if t[0] in "oc" else ident(t))
     k = op[0]
     if k == "R":
         ia = {"N": "None", "E": "''", "X": "7"}.get(op[2]) or ident(op[2])
@@ -547,7 +637,7 @@ def describe(op):
     if k == "C":
         return "call ping() on id %s" % ident(op[1])
     if k == "V":
-        return "return o%s from a remote method (%s)" % (op[1], SERS[op[2]])
+        return "return o%s from a remote method (%s)" % (op[1], SERS[op[2].lower()])
     return "DaemonObject.registered()"
 
 
@@ -637,7 +727,7 @@ class Spec:
                 elif len(have) > 1:
                     # which of the aliases goes is not determined by the property: follow the implementation
                     self.exp = {i: v for i, v in registry.items()}
-            elif t not in "NX":
+            elif t not in "NXB":
                 i = t
                 if i[0] == "r":
                     i = "g%d" % (int(i[1:]) % gens_before) if gens_before else "n0"
@@ -680,12 +770,12 @@ class Spec:
                 if not ok:
                     out = "by-value" if res == "byvalue" else ("error" if res.startswith("err:") else "wrong-proxy")
                     return self.fail("return-registered:" + out, "%s is registered as %s; returned with %s it arrived as %s" % (
-                        ent, have, SERS[op[2]], res), ent)
-            elif not self.ids_of("c%d" % (int(op[1]) % NCLS)):
+                        ent, have, SERS[op[2].lower()], res), ent)
+            elif not self.ids_of("c%d" % class_of(int(op[1]))):
                 if res != "byvalue":
                     out = "error" if res.startswith("err:") else "proxy"
                     return self.fail("return-unregistered:" + out, "%s is not registered (%s); returned with %s it arrived as %s" % (
-                        ent, self.how.get(ent, "never was"), SERS[op[2]], res), ent)
+                        ent, self.how.get(ent, "never was"), SERS[op[2].lower()], res), ent)
         elif kind in "FP":
             if op[1][0] in "oc":
                 ent = op[1]
@@ -717,11 +807,16 @@ class Spec:
 # ----------------------------------------------------------------------------------------------------------
 def _gen_history(rng):
     n = rng.choice([3, 5, 8, 12, 16, 20, 25])
-    nobj = rng.choice([2, 3, 4, 6])       # small pools collide more
+    objs = list(range(rng.choice([2, 3, 4, 6])))       # small pools collide more
+    if rng.random() < 0.4:
+        # objects that cannot carry attributes / whose class derives from a builtin the serializers convert
+        objs += rng.sample(range(6, NOBJ), rng.choice([1, 1, 2, 3]))
+        if rng.random() < 0.5:
+            objs = objs[-4:]
     nid = rng.choice([1, 2, 4])
 
     def ent():
-        return "c%d" % rng.randrange(NCLS) if rng.random() < 0.15 else "o%d" % rng.randrange(nobj)
+        return "c%d" % rng.randrange(REGCLS) if rng.random() < 0.15 else "o%d" % rng.choice(objs)
 
     def ident():
         r = rng.random()
@@ -737,7 +832,7 @@ def _gen_history(rng):
             return ent()
         if r < 0.93:
             return ident()
-        return rng.choice("NX")
+        return rng.choice("NXB")
 
     ops = []
     for _ in range(n):
@@ -749,7 +844,7 @@ def _gen_history(rng):
         elif r < 0.55:
             ops.append(["U", target()])
         elif r < 0.60:
-            ops.append(["G", str(rng.randrange(nobj))])
+            ops.append(["G", str(rng.choice(objs))])
         elif r < 0.65:
             ops.append(["F", target()])
         elif r < 0.70:
@@ -757,7 +852,7 @@ def _gen_history(rng):
         elif r < 0.82:
             ops.append(["C", ident()])
         elif r < 0.95:
-            ops.append(["V", str(rng.randrange(nobj)), rng.choice("sjm")])
+            ops.append(["V", str(rng.choice(objs)), rng.choice("sjmsjmSJM")])
         else:
             ops.append(["L"])
     return ops
